@@ -327,6 +327,10 @@ class Choices(DecisionPoint):
             f'Number of DNA child values does not match the number of choices. '
             f'Child values: {dna.children!r}, Choices: {self.num_choices}, '
             f'Location: {self.location.path}.')
+      if dna.value is not None:
+        raise ValueError(
+            f'Expect a list of choices for a multi-choice, but encountered '
+            f'value {dna.value!r}. Location: {self.location.path}.')
       if self.distinct or self.sorted:
         sub_dna_values = [s.value for s in dna]
         if self.distinct and len(set(sub_dna_values)) != len(dna.children):
